@@ -1,5 +1,6 @@
 import Rs1090.Driver.CprCommon
 import Rs1090.Model.Pipeline
+import Rs1090.Model.PipelineRefs
 /-!
 Model driver op of the composed pipeline (used by `Driver/C12.lean`):
 
@@ -10,13 +11,19 @@ into `f64`; the harness emits the op only when every one of them is exactly repr
 (time stamps multiples of 1/1024 s below 2^40, reference coordinates multiples of 2^-20 degree), so
 the model's rationals ARE the doubles of the code.  Answer: the table text (`showTable`), as `snapf`.
 
+    snapps [U] R<serial>=<lat>,<lon> R<serial>=- … <t>:<framehex>:<serial>[,<serial>…] …
+
+the same stage with jet1090's per-sensor references and `--update-position` (`U`): Model/PipelineRefs.lean
+`runS`.  Answer: the table text, then ` refs <serial>=<lat>,<lon>|- …` — the references after the history, for
+the declared serials in increasing order (coordinates in the table's canonical number text).
+
 `dist_haversine` is a parameter of the model; here, as in `Driver/C06.lean`, it is the same formula on
 `Float` (the C library's sin/cos/atan2/sqrt) applied to the correctly rounded coordinates, returned as
 the exact rational value of the resulting double.
 -/
 namespace Rs1090.Driver.Pipeline
 open Rs1090 Rs1090.Model.Cpr Rs1090.Model.CprState Rs1090.Model.Pipeline Rs1090.Driver.Cpr
-open Rs1090.Model.Snapshot
+open Rs1090.Model.Snapshot Rs1090.Model.PipelineRefs
 
 def ratToFloat (x : Rat) : Float := Float.ofInt x.num / Float.ofNat x.den
 
@@ -63,6 +70,24 @@ def parseRef (s : String) : Option Pos :=
     pure ⟨la, lo⟩
   | _ => none
 
+/-- `R<serial>=<lat>,<lon>` / `R<serial>=-` -/
+def parseDecl (tok : String) : Option (Nat × Option Pos) :=
+  match (tok.drop 1).toString.splitOn "=" with
+  | [sn, r] => do
+    let sn ← sn.toNat?
+    if r == "-" then pure (sn, none) else (parseRef r).map fun p => (sn, some p)
+  | _ => none
+
+/-- `<t>:<framehex>:<serial>[,<serial>…]` -/
+def parseRcvS (tok : String) : Option RcvS :=
+  match tok.splitOn ":" with
+  | [t, hx, sns] => do
+    let t ← parseRat t
+    let frame ← parseHex hx
+    let serials ← (sns.splitOn ",").mapM (·.toNat?)
+    pure { t, frame, serials }
+  | _ => none
+
 def handle : List String → Option String
   | "snapp" :: ws =>
     match ws with
@@ -73,6 +98,24 @@ def handle : List String → Option String
         pure (showTable (runPipeline Gates.source distF (some r) h))
       else (ws.mapM parseRcv).map fun h => showTable (runPipeline Gates.source distF none h)
     | [] => some (showTable (runPipeline Gates.source distF none []))
+  | "snapps" :: ws =>
+    let (u, ws) := match ws with
+      | "U" :: rest => (true, rest)
+      | _ => (false, ws)
+    let decls := ws.takeWhile (·.startsWith "R")
+    let recs := ws.dropWhile (·.startsWith "R")
+    do
+      let refs ← decls.mapM parseDecl
+      let h ← recs.mapM parseRcvS
+      if h.any (fun x => x.serials.isEmpty || x.serials.any fun sn => !(refs.any (·.1 == sn))) then none
+      else
+        let st := runS Gates.source distF u (Refs.ofList refs) h
+        let serials := (refs.map (·.1)).eraseDups.mergeSort (· ≤ ·)
+        let showRef (sn : Nat) : String :=
+          match st.refs sn with
+          | some p => s!"{sn}={ratText p.lat},{ratText p.lon}"
+          | none => s!"{sn}=-"
+        pure (showTable st.table ++ " refs" ++ String.join (serials.map fun sn => " " ++ showRef sn))
   | _ => none
 
 end Rs1090.Driver.Pipeline
